@@ -33,8 +33,15 @@ def dirMisordered (p : Proc) (dir : Nat) : Bool :=
   let l := dirFiles p dir
   (sortFiles l).map (·.1) != l.map (·.1)
 
+/-- a WAL file of the directory has been deleted by the reclaimer: the recovery scan numbers the
+remaining blocks differently and the chains are shorter, so persisted cursors (positional chain index,
+or tail block id) no longer denote the same position -/
+def dirHasDeletion (p : Proc) (dir : Nat) : Bool :=
+  p.files.any fun fs => fs.dir == dir && !fs.present
+
 def firesOpen (c : Cfg) (p : Proc) (dir : Nat) : List String :=
   let l := dirFiles p dir
+  (if dirHasDeletion p dir then ["cursorsNotStableAcrossDeletion"] else []) ++
   (if l.any (fun (_, fs) => fileHasHole c fs) then ["scanStopsAtEmptyBlock"] else []) ++
   (if dirMisordered p dir then ["clockRegressionReordersFiles"] else [])
 
